@@ -167,6 +167,45 @@ theorem C04_nonce (B : BAead) (n : Nat) (aad ct : Bytes) :
   · intro h; simp [packNonce, Nat.not_lt.mpr h]
   · intro m hn hm e; exact nonceBytes_inj n m hn hm e
 
+/-- The nonce may be kept as 12 bytes and bumped in place once per frame instead of being packed afresh:
+    with a carry that runs as far as needed, the bytes used for frame `n` are `PACK_NONCE(n)` for EVERY `n`
+    — the frame number leaving the lowest byte (256), the second (65536), the third … is nothing special.
+    (So `C04_nonce` and everything above applies to such an implementation verbatim.) -/
+theorem C04_nonce_in_place (n : Nat) :
+    bumped n = nonceBytes n ∧ bumpNonce (nonceBytes n) = nonceBytes (n + 1) :=
+  ⟨bumped_eq n, bumpNonce_nonceBytes n⟩
+
+/-- … whereas an in-place increment whose carry stops after ONE higher byte is the format only for the first
+    65536 frames of a session: it takes the nonce of frame 65535 back to the nonce of frame 0 (the authentic
+    frame 65536 no longer opens, a replay of frame 0 does). -/
+theorem C04_one_carry_counterexample :
+    incLeOneCarry (leBytes 8 65535) = leBytes 8 0 ∧ leBytes 8 65536 ≠ leBytes 8 0 ∧
+    incLe (leBytes 8 65535) = leBytes 8 65536 ∧ incLeOneCarry (leBytes 8 255) = leBytes 8 256 := by decide
+
+/-- The receive side does not know about responses. For EVERY sequence of reads interleaved in any way with a
+    delayed response (camera snapshot) becoming pending and being completed, what each read hands to the HTTP
+    layer, and the receive state left behind, are exactly those of the reads alone — so exactness, promptness
+    (`C04_prompt`: handed over by the read that carries the last byte of the frame) and fail-closed hold
+    verbatim while a response is pending. (True by construction of `PConn.step`; that `data_received` does not
+    park ciphertext while `self.response` is set is tied by the stream `pending-response`.) -/
+theorem C04_pending_independent (A : Aead) (c : PConn) (evs : List Ev) :
+    PConn.trace A c evs = Rx.trace A c.rx (readsOf evs) ∧
+    (PConn.run A c evs).rx = (Rx.run A c.rx (readsOf evs)).1 := by
+  induction evs generalizing c with
+  | nil => simp [PConn.trace, PConn.run, readsOf, Rx.trace, Rx.run]
+  | cons e es ih =>
+    cases e with
+    | read chunk =>
+      have h := ih (c.step A (.read chunk)).1
+      simp only [PConn.step] at h
+      simp only [PConn.trace, PConn.run, PConn.step, readsOf, Rx.trace, Rx.run]
+      exact ⟨by rw [h.1], by rw [h.2]⟩
+    | pending b =>
+      have h := ih (c.step A (.pending b)).1
+      simp only [PConn.step] at h
+      simp only [PConn.trace, PConn.run, PConn.step, readsOf]
+      exact h
+
 /-- The loop as it was before the repair (`>` instead of `>=`) does not deliver a complete
     19-byte frame (1-byte payload) that sits at the end of the buffer; the repaired loop does. -/
 theorem C04_legacy_counterexample :
@@ -175,6 +214,12 @@ theorem C04_legacy_counterexample :
   decide +kernel
 
 /-! non-vacuity -/
+example : packNonce 65536 = some [0, 0, 0, 0, 0, 0, 1, 0, 0, 0, 0, 0] ∧ bumpNonce (nonceBytes 65535) = nonceBytes 65536 := by decide
+/-- pending flag, concrete: a frame split over two reads with a snapshot becoming pending in between -/
+example :
+    let w := wire (mockAead 3) 0 [1, 2]
+    PConn.trace (mockAead 3) {} [.read (w.take 5), .pending true, .read (w.drop 5), .pending false] = [[], [1, 2]] := by
+  decide +kernel
 example : packNonce 258 = some [0, 0, 0, 0, 2, 1, 0, 0, 0, 0, 0, 0] ∧ packNonce NONCE_LIMIT = none := by decide
 example : Correct (mockAead 3) := mock_correct 3
 example : Ideal (tableAead [[1, 2], [3]]) [[1, 2], [3]] ∧
